@@ -63,8 +63,8 @@ def main(argv=None):
         prop, known_keys[key].get('what', key), key, len(vs),
         json.dumps(vs[0].case, default=str, sort_keys=True)[:300]))
   res.violations = real
-  if not args.replay:
-    core.write_evidence(res)
+  if not args.replay and core.REPO == '/repo':
+    core.write_evidence(res)   # evidence only ever describes runs against /repo itself
   if real:
     seen = set()
     for v in real[:20]:
